@@ -796,8 +796,24 @@ def ineq_dqm_eval(ctx, r, lines, checks, method, ncases, names, d, build, terms,
                     ctx.fail('property', site, cls + ', non-negative biases', f'terms {call!r} c={cst} lb={lb} ub={ub} lam={lam} cross_zero=True: at {dict(zip(names, t))!r} (sum={tot}; in [lb, ub] or 0: {f}) the penalty minimised over slack is {m}',
                              repro=src.replace('if lb <= val(s) <= ub else', 'if (lb <= val(s) <= ub or val(s) == c) else'), detail=dict(slack=repr(sl)))
                     break
+        if cross and method in ('log2', 'linear') and len(full) <= 60000 and not bad and (not sl or not all(a >= 0 for _, _, a in terms)):
+            # round 8: the rest of the cross_zero surface against the DOCUMENTED domain ("adds zero to the domain of constraint": sum == 0 or lb <= sum + c <= ub).
+            # As coded the equality short-cut (tightened range 0) ignores cross_zero, and for negative sums the extra value ub_c accepts every sum in -S..0:
+            # both deviate (the D66g family, tests pin the coefficient ub_c); one known-finding entry per class, so anything ELSE in these classes is still a violation text to read
+            sub = 'equality short-cut' if not sl else 'negative biases'
+            en = dict(zip(full, dqm_energies(d, full)))
+            for t in allc:
+                m = min(en[t + u] for u in itertools.product(*[range(k) for k in sizes])) - e0[t]
+                tot = val(t) - cst
+                f = lb <= val(t) <= ub or tot == 0
+                ctx.tick(f'ineqdqm:cross:documented-domain ({sub})')
+                if (m != 0) if f else (m < lam):
+                    bad = True
+                    ctx.fail('property', site, cls + ', ' + sub, f'terms {call!r} c={cst} lb={lb} ub={ub} lam={lam} cross_zero=True: at {dict(zip(names, t))!r} (sum={tot}; in [lb, ub] or 0: {f}) the penalty minimised over slack is {m}',
+                             repro=src.replace('if lb <= val(s) <= ub else', 'if (lb <= val(s) <= ub or val(s) == c) else'), detail=dict(slack=repr(sl)))
+                    break
         if not sl and not svars and dqm_state(d) == st0:
-            out = 'skip'
+            out = 'ski'
         else:
             sv = []
             for v in svars:
